@@ -11,8 +11,10 @@ TrEnd == IsEvent("end") /\ Consume /\ End(Ev.f, Ev.res, Ev.consistent, Ev.preser
 (* a block the documentation says the library keeps (declared by the program, with the reason) leaves the ledger *)
 TrResidue == IsEvent("residue") /\ Consume /\ Ev.id \in live /\ live' = live \ {Ev.id} /\ UNCHANGED <<failed, incall, everfail>>
 TrQuiesce == IsEvent("quiesce") /\ Consume /\ Quiesce
+(* memory the C library allocated on behalf of a call (it does not pass through the allocator table): nothing unreachable is left *)
+TrLsan == IsEvent("lsan") /\ Consume /\ Ev.leaks = 0 /\ UNCHANGED lvars
 (* the child process that ran the program must have returned normally: no signal, no sanitizer report *)
 TrChild == IsEvent("child") /\ Consume /\ Ev.status = "ok" /\ live' = {} /\ failed' = FALSE /\ incall' = "" /\ everfail' = FALSE
-TNext == TrAlloc \/ TrRealloc \/ TrFree \/ TrBegin \/ TrEnd \/ TrResidue \/ TrQuiesce \/ TrChild
+TNext == TrAlloc \/ TrRealloc \/ TrFree \/ TrBegin \/ TrEnd \/ TrResidue \/ TrQuiesce \/ TrLsan \/ TrChild
 TSpec == TInit /\ [][TNext]_tv
 ====
